@@ -144,3 +144,51 @@ func sortU64(a []uint64) {
 		}
 	}
 }
+
+// GenHistorySpec derives a long sequential history run: one or two callers, many calls, no
+// preemption — the fault-free configuration in which a failure is attributable to history alone.
+func GenHistorySpec(procSeed uint64, idx int, pool []*Key, eligible []int) RunSpec {
+	r := prng.Sub(procSeed, "c14-history-run", uint64(idx))
+	spec := RunSpec{Index: idx, Seed: r.Uint64(), Strategy: "sequential", StickPct: 100}
+	nt := 1
+	if r.Chance(1, 4) {
+		nt = 2
+		spec.StickPct = 50
+	}
+	// a recurring working set plus fresh keys: the same source under different parameters, the same
+	// parameters under different sources, failures between successes
+	ws := make([]int, r.Range(2, 8))
+	for i := range ws {
+		ws[i] = eligible[r.Intn(len(eligible))]
+	}
+	nShared := 0
+	sharedFor := map[string]int{}
+	for t := 0; t < nt; t++ {
+		var ts TaskSpec
+		nc := r.Range(40, 120)
+		for c := 0; c < nc; c++ {
+			var ki int
+			if r.Chance(1, 2) {
+				ki = ws[r.Intn(len(ws))]
+			} else {
+				ki = eligible[r.Intn(len(eligible))]
+			}
+			k := pool[ki]
+			forms := k.OptForms()
+			cs := CallSpec{Key: ki, Form: forms[r.Intn(len(forms))]}
+			if cs.Form == "shared" {
+				sig := Dump(k.Params)
+				id, ok := sharedFor[sig]
+				if !ok {
+					nShared++
+					id = nShared
+					sharedFor[sig] = id
+				}
+				cs.Shared = id
+			}
+			ts.Calls = append(ts.Calls, cs)
+		}
+		spec.Tasks = append(spec.Tasks, ts)
+	}
+	return spec
+}
